@@ -389,6 +389,7 @@ type failingMarshaler struct{}
 func (failingMarshaler) MarshalJSON() ([]byte, error) { return nil, fmt.Errorf("no") }
 
 func c01Numbers(c *Ctx) {
+	c01Orders(c)
 	c01EncoderStreams(c)
 	c01NumberTexts(c)
 	c01Durations(c)
@@ -424,6 +425,10 @@ func c01Replay(c *Ctx, raw stdjson.RawMessage) {
 	}
 	var k jsonCase
 	if stdjson.Unmarshal(raw, &k) != nil {
+		return
+	}
+	if strings.HasPrefix(k.Setting, "order:") {
+		c01Orders(c)
 		return
 	}
 	if strings.HasPrefix(k.Setting, "deep:") {
@@ -1046,7 +1051,7 @@ func c02Replay(c *Ctx, raw stdjson.RawMessage) {
 	if stdjson.Unmarshal(raw, &k) != nil {
 		return
 	}
-	if k.Setting == "ptrptr" || k.Setting == "durationdoc" || k.Setting == "casefold" {
+	if k.Setting == "ptrptr" || k.Setting == "durationdoc" || k.Setting == "casefold" || k.Setting == "timetext" || k.Setting == "depthlimit" {
 		c02PtrPtr(c)
 		return
 	}
@@ -1174,9 +1179,116 @@ func c02CaseFold(c *Ctx) {
 	}
 }
 
+// c02TimeTexts: time.Time targets take exactly the quoted texts encoding/json takes (RFC 3339 as time.Time's
+// UnmarshalJSON reads it): valid timestamps of every fraction length and zone form, and each of them with every byte
+// position overwritten by the neighbours of the digits (/ and :), other digits, separators and letters
+func c02TimeTexts(c *Ctx) {
+	bases := []string{"2021-03-25T21:36:12Z", "2021-03-25T21:36:12.5Z", "2021-03-25T21:36:12.123456789Z", "2021-03-25T21:36:12.123456Z", "2021-03-25T21:36:12+07:00",
+		"2021-03-25T21:36:12.25-11:30", "0000-01-01T00:00:00Z", "9999-12-31T23:59:59.999999999Z", "2020-02-29T23:59:60Z", "2021-02-29T00:00:00Z", "2021-03-25t21:36:12z",
+		"2021-03-25T21:36:12", "2021-03-25", "2021-03-25T21:36Z", "2021-03-25T24:00:00Z", "2021-03-25T21:36:12.Z", "2021-03-25T21:36:12,5Z", "2021-3-25T21:36:12Z", "+2021-03-25T21:36:12Z",
+		"2021-03-25T21:36:12.1234567891Z", "2021-03-25 21:36:12Z", "", "Z"}
+	subs := []byte{'/', ':', '0', '9', '5', 'a', ' ', '-', '+', '.', 'Z', 'T', ',', 0xc3}
+	seen := map[string]bool{}
+	var texts []string
+	add := func(t string) {
+		if !seen[t] {
+			seen[t] = true
+			texts = append(texts, t)
+		}
+	}
+	for bi, b := range bases {
+		add(b)
+		if bi > 5 {
+			continue
+		}
+		for i := 0; i < len(b); i++ {
+			for _, sb := range subs {
+				add(b[:i] + string(sb) + b[i+1:])
+			}
+			add(b[:i] + b[i+1:])
+		}
+	}
+	type holder struct {
+		T time.Time
+		P *time.Time
+		L []time.Time
+		M map[string]time.Time
+	}
+	for _, t := range texts {
+		q, _ := stdjson.Marshal(t)
+		if strings.Contains(t, "\xc3") {
+			q = []byte(`"` + t + `"`) // the invalid byte as it is
+		}
+		doc := string(q)
+		k := jsonCase{Setting: "timetext", Doc: doc}
+		var w1, g1 time.Time
+		var w2, g2 holder
+		full := `{"T":` + doc + `,"P":` + doc + `,"L":[` + doc + `],"M":{"k":` + doc + `}}`
+		we1 := stdjson.Unmarshal([]byte(doc), &w1)
+		we2 := stdjson.Unmarshal([]byte(full), &w2)
+		var ge1, ge2 error
+		c.Case()
+		c.Eval(2)
+		if p := protect(func() {
+			ge1 = json.Unmarshal([]byte(doc), &g1)
+			ge2 = json.Unmarshal([]byte(full), &g2)
+		}); p != "" {
+			c.Diverge("C02", "json.Unmarshal(*time.Time)", fmt.Sprintf("%v err=%v", w1, we1), p, "", k)
+			continue
+		}
+		if (we1 == nil) != (ge1 == nil) || (we1 == nil && !(w1.Equal(g1) && w1.String() == g1.String())) {
+			c.Diverge("C02", "json.Unmarshal(*time.Time)", fmt.Sprintf("%v err=%v", w1, we1), fmt.Sprintf("%v err=%v", g1, ge1), "", k)
+			continue
+		}
+		if (we2 == nil) != (ge2 == nil) || (we2 == nil && !(w2.T.Equal(g2.T) && g2.P != nil && w2.P.Equal(*g2.P) && len(g2.L) == 1 && w2.L[0].Equal(g2.L[0]) && w2.M["k"].Equal(g2.M["k"]) && w2.T.String() == g2.T.String())) {
+			c.Diverge("C02", "json.Unmarshal(time.Time as field, pointer, element, map value)", fmt.Sprintf("%v err=%v", w2.T, we2), fmt.Sprintf("%+v err=%v", g2.T, ge2), "", k)
+		}
+	}
+}
+
+// c02DepthLimit: encoding/json refuses documents nested deeper than 10000 whatever the target; every level counts,
+// also the levels of targets the decoder has fast paths for
+type depthT struct {
+	N *depthT                    `json:"n,omitempty"`
+	S map[string]string          `json:"s,omitempty"`
+	B map[string]bool            `json:"b,omitempty"`
+	L map[string][]string        `json:"l,omitempty"`
+	R map[string]json.RawMessage `json:"r,omitempty"`
+	A map[string]any             `json:"a,omitempty"`
+	I any                        `json:"i,omitempty"`
+	V []int                      `json:"v,omitempty"`
+	G map[int]depthT             `json:"g,omitempty"`
+	Q []depthT                   `json:"q,omitempty"`
+}
+
+func c02DepthLimit(c *Ctx) {
+	inners := []string{`"s":{"k":"v"}`, `"b":{"k":true}`, `"l":{"k":["x"]}`, `"r":{"k":1}`, `"r":{"k":{"j":[]}}`, `"a":{"k":[[]]}`, `"i":{"k":{}}`,
+		`"v":[1]`, `"g":{"1":{"v":[]}}`, `"q":[{"s":{}}]`, `"x":{"y":[]}`, `"n":null`}
+	for _, inner := range inners {
+		for _, k := range []int{9997, 9998, 9999} {
+			doc := strings.Repeat(`{"n":`, k) + "{" + inner + "}" + strings.Repeat("}", k)
+			kk := jsonCase{Setting: "depthlimit", Doc: inner, VI: k}
+			var a, b depthT
+			e1 := stdjson.Unmarshal([]byte(doc), &a)
+			var e2 error
+			c.Case()
+			c.Eval(1)
+			if p := protect(func() { e2 = json.Unmarshal([]byte(doc), &b) }); p != "" {
+				c.Diverge("C02", "json.Unmarshal(document at the nesting limit)", errStr(e1), p, "", kk)
+				continue
+			}
+			if (e1 == nil) != (e2 == nil) {
+				c.Diverge("C02", "json.Unmarshal(document at the nesting limit)", fmt.Sprintf("%d levels around {%s}: err=%v", k, inner, e1), fmt.Sprintf("err=%v", e2), "", kk)
+			}
+		}
+	}
+}
+
 func c02PtrPtr(c *Ctx) {
+	c02DepthLimit(c)
 	c02CaseFold(c)
 	c02Durations(c)
+	c02TimeTexts(c)
 	type S struct {
 		O **int
 		P ***string
